@@ -66,6 +66,11 @@ class MatchGen:
             n_cuts = self.rng.choice([1, 1, 2, 3])
             pool = [lo + 1, hi, 0, 1, 2, 10, 100, 128, 255, 256, -1, -128, hi - 1, (lo + hi) // 2, self.rng.randint(lo, hi)]
             cuts = sorted(set(c for c in self.rng.sample(pool, min(n_cuts, len(pool))) if lo < c <= hi))
+            if self.rng.random() < 0.3:
+                # a part with ONE value at a place that matters: 0 and its neighbours, the ends of the type
+                pt = self.rng.choice([0, 0, 0, 1, -1, 2, lo, hi, 127, 128])
+                if lo <= pt <= hi:
+                    cuts = sorted(set(cuts) | {c for c in (pt, pt + 1) if lo < c <= hi})
             bounds = [lo] + cuts + [hi + 1]
             out = []
             for a, b1 in zip(bounds, bounds[1:]):
